@@ -49,7 +49,11 @@ def real_step(kinv, dz, T):
 
 
 def main():
-    chk = Check("C05")
+    # the plumbing of the analytic branch (per-axis quantities, padding, truncation, shift, crop, linear mean profile)
+    # is checked on the Solver model with analytic = TRUE and replayed on the real analytic mode
+    from . import check_solver as cs
+
+    chk = cs.main("C05", families=[("AnalyticSym", "AnalyticSym"), ("AnalyticCons", "AnalyticCons")])
     t = tier()
     r = run_tlc("StepAlgebra", "MC_Step")
     chk.add_tlc("MC_Step", r)
@@ -88,11 +92,11 @@ def main():
         slip = 2 * abs(float(kinv) ** 2 * complex(float(T[0]), float(T[1])) * float(dz) ** 3 / 6)
         if slip > 10 * float(r4):
             sharp += 1
-    chk.traces = len(r.emitted)
+    chk.traces += len(r.emitted)
     chk.extra["probe_points"] = len(r.emitted)
     chk.extra["probe_points_where_a_cubic_sign_slip_exceeds_10x_the_tolerance"] = sharp
     chk.extra["exhaustive"] = True
-    chk.rule = "144 probe points (1/K in {1/2,1,2}) x (dz = 2^-1..2^-6) x 8 Gaussian-rational T; each is one case; every coefficient a, b, c, d of the real one-layer step is compared with the specification's rational value"
+    chk.rule = chk.rule + " | 144 probe points (1/K in {1/2,1,2}) x (dz = 2^-1..2^-6) x 8 Gaussian-rational T; each is one case; every coefficient a, b, c, d of the real one-layer step is compared with the specification's rational value"
     for e in r.emitted[:2]:
         chk.sample(e)
     chk.assumptions += ["only the local expansion order of the step is decided; the transcendental closed form of the analytic branch and the measured eightfold error reduction are not (DESIGN.md, C05)",
